@@ -8,6 +8,10 @@ from .. import fitsmodel, boolfn
 from ..boolfn import LT
 from ..axes import declared_axes, reversal_position
 from . import common
+from .. import alg as _alg
+from ..alg import sym as _sym
+from ..interp import Interp as _Interp, Hooks as _Hooks, Obj as _Obj, symarr as _symarr, unit_atom as _unit_atom
+from ..fitmodel import compare as _compare, loc as _loc
 
 EXPLANATION = (
     "(AGREE-3/4/5) For SED, BaseCube and ConvolvedFluxes, every attribute the reader sets is read from exactly the HDU (by position or name), column, "
@@ -22,7 +26,7 @@ NOT_DECIDED = ["float32/float64 storage exactness and memory-mapped vs in-memory
                "astropy's unit string formatting and parsing being inverse of each other (library)"]
 ASSUMPTIONS = ["the FITS library stores table columns in insertion order and HDUs in list order"]
 TRUSTED = ["python ast", "astropy.io.fits / astropy.table semantics"]
-MIN = {'AGREE-4': 8, 'AGREE-5': 8, 'AGREE-3': 6, 'API-2': 1, 'PERM-4': 5, 'PERM-5': 1, 'PERM-6': 1, 'CFG-8': 2, 'AXIS': 7}
+MIN = {'AGREE-4': 8, 'AGREE-5': 8, 'AGREE-3': 6, 'API-2': 1, 'PERM-4': 5, 'PERM-5': 9, 'PERM-6': 1, 'CFG-8': 2, 'AXIS': 7}
 
 
 def reversal_block(fi, obj):
@@ -129,6 +133,42 @@ def check_none_guards(ctx, fi, obj, attr):
     return n
 
 
+class _AxisHooks(_Hooks):
+    """setters and getters interpreted for real (not summarised as 'store under the private attribute')"""
+    def opaque(self, interp, fi, args, kwargs, node):
+        if fi.name in ('validate_array', 'validate_scalar'):
+            return args[1] if len(args) > 1 else kwargs.get('value')
+        return NotImplemented
+
+    def setter(self, interp, obj, name, val, setter_fi, node):
+        return NotImplemented
+
+
+def check_axis_pair(ctx):
+    """BaseCube keeps one spectral axis and derives the other: after any two assignments (wav/nu, in either order) both getters must
+    describe the axis assigned last. The reader's reversal assigns cube.wav a second time and every consumer then reads cube.nu."""
+    repo = ctx.repo
+    ci = repo.cls('sed.cube', 'BaseCube')
+    N = 'n'
+    fns = {k: repo.func('sed.cube', 'BaseCube.%s' % k) for k in ('wav@getter', 'wav@setter', 'nu@getter', 'nu@setter')}
+    for f in fns.values():
+        ctx.fn(f)
+    unit_of = {'wav': 'micron', 'nu': 'Hz'}
+    for first in ('wav', 'nu'):
+        for second in ('wav', 'nu'):
+            I = _Interp(repo, _AxisHooks())
+            o = _Obj(ci, {'_wav': None, '_nu': None})
+            a = _symarr('A', (N,), unit=_unit_atom(unit_of[first]))
+            b = _symarr('B', (N,), unit=_unit_atom(unit_of[second]))
+            I.call(fns[first + '@setter'], [a], selfv=o)
+            I.call(fns[second + '@setter'], [b], selfv=o)
+            for read in ('wav', 'nu'):
+                got = I.call(fns[read + '@getter'], [], selfv=o)
+                ref = _sym('B', N) if read == second else _alg.mk_fn('spectral', _alg.P(_sym('B', N)))
+                _compare(ctx, 'PERM-5', 'cube.%s after cube.%s = A; cube.%s = B' % (read, first, second), _loc(fns[read + '@getter']), got, ref, (N,), vocab={'A', 'B'}, fns={'spectral'},
+                         findings=I.findings, detail_ok='describes B, the axis assigned last')
+
+
 def run(ctx):
     repo = ctx.repo
     # ---- writer / reader agreement
@@ -147,6 +187,7 @@ def run(ctx):
     check_reversal(ctx, 'PERM-4', ctx.fn(sr), Rs.obj, sed_axes, ['wav', 'nu', 'flux', 'error'])
     Rc = fitsmodel.Reader(cr)
     check_reversal(ctx, 'PERM-5', ctx.fn(cr), Rc.obj, cube_axes, ['wav', 'val', 'unc'])
+    check_axis_pair(ctx)
     # ---- PERM-6: reordering in SED.write
     W = fitsmodel.Writer(sw)
     sorts = [c for c in calls(sw.node) if isinstance(c.func, ast.Attribute) and c.func.attr == 'sort' and isinstance(c.func.value, ast.Name) and c.func.value.id in W.tables]
@@ -204,6 +245,8 @@ CU = 'sedfitter/sed/cube.py'
 CF = 'sedfitter/convolved_fluxes/convolved_fluxes.py'
 HE = 'sedfitter/sed/helpers.py'
 MUST_FIRE = [
+    ('cube nu getter keeps the derived axis', [(CU, "            return self._wav.to(u.Hz, equivalencies=u.spectral())\n        else:\n            return self._nu", "            self._nu = self._wav.to(u.Hz, equivalencies=u.spectral())\n        return self._nu")]),
+    ('cube wav setter leaves the old nu in place', [(CU, "            self._nu = None\n            self._wav = validate_array('wav'", "            self._wav = validate_array('wav'")]),
     ('SED reversal omits error', [(SE, "            sed.error = sed.error[..., ::-1]\n", "")]),
     ('SED flux reversed on axis 0', [(SE, "sed.flux = sed.flux[..., ::-1]", "sed.flux = sed.flux[::-1, ...]")]),
     ('cube val reversed on the aperture axis (D6 reverted)', [(CU, "cube.val = cube.val[:, :, ::-1]", "cube.val = cube.val[:, ::-1, :]")]),
@@ -227,6 +270,8 @@ MUST_FIRE = [
     ('get_sed indexes the aperture axis', [(CU, "sed.flux = self.val[sed_index, :,:]", "sed.flux = self.val[:, sed_index, :]")]),
 ]
 MUST_SILENT = [
+    ('cube wav setter validates first, then drops nu', [(CU, "            self._nu = None\n            self._wav = validate_array('wav', value, domain='positive', ndim=1,\n                                       shape=None if self.nu is None else (len(self.nu),),\n                                       physical_type='length')",
+                                                             "            value = validate_array('wav', value, domain='positive', ndim=1,\n                                   shape=None if self.nu is None else (len(self.nu),),\n                                   physical_type='length')\n            self._nu = None\n            self._wav = value")]),
     ('explicit last-axis slice', [(SE, "sed.flux = sed.flux[..., ::-1]", "sed.flux = sed.flux[:, ::-1]")]),
     ('reader via a local HDU variable', [(SE, "ap = hdulist[2].data.field('APERTURE') * parse_unit_safe(hdulist[2].columns[0].unit)", "hdu_ap = hdulist[2]\n        ap = hdu_ap.data.field('APERTURE') * parse_unit_safe(hdu_ap.columns[0].unit)")]),
     ('guard written with flipped comparison', [(SE, "(order == 'nu' and sed.nu[0] > sed.nu[-1])", "(order == 'nu' and sed.nu[-1] < sed.nu[0])")]),
